@@ -689,14 +689,27 @@ class HistoryGen:
             if op["mode"] == "twin" and len(live) >= self.max_handles + 1:
                 op["mode"] = "replace"
             if op["mode"] == "twin":
+                # questions asked BEFORE the solver is pickled: what it memoised for them is (or is not) in the pickle
+                pre = []
+                if r.chance(55):
+                    for _ in range(r.range(1, 2)):
+                        q0 = self.query_op(r.choice(["eval", "max", "min"]), hi, h)
+                        if "e" in q0 and q0["e"][0] in ("var", "const") and q0["op"] in ("eval", "min", "max"):
+                            w_ = width_of(q0["e"], self.vars)
+                            q0["e"] = self.egf(h).sexpr(1) if w_ == -1 else self.egf(h).bv(w_, 1)
+                        q0.pop("probe", None)
+                        pre.append(q0)
+                        self.emit(q0)
                 self.emit(op)
                 # drive original and twin in lock-step for a while: determined answers must be equal
                 live = [x for x in self.handles if x.alive]
                 ti = len(live) - 1
                 asked = []
-                for _ in range(r.range(1, 4)):
+                todo = [dict(q0) for q0 in pre] + [None] * r.range(1 if not pre else 0, 3)
+                for q in todo:
                     k2 = r.weighted([("sat", 2), ("probe", 3), ("eval", 4), ("min", 2), ("max", 2), ("solution", 2), ("batch_eval", 1)])
-                    q = self.query_op(k2, hi, h)
+                    if q is None:
+                        q = self.query_op(k2, hi, h)
                     if "e" in q and q["e"][0] in ("var", "const") and r.chance(60) and q["op"] in ("eval", "min", "max"):
                         w_ = width_of(q["e"], self.vars)
                         q["e"] = self.egf(h).sexpr(1) if w_ == -1 else self.egf(h).bv(w_, 1)
@@ -1366,7 +1379,7 @@ PROFILES = {
         "approx_simple_constraints": True,
         "extra_pct": 10,
         "length": (3, 25),
-        "weights": {"batch_eval": 2, "branch": 4, "simplify": 1},
+        "weights": {"batch_eval": 2, "branch": 4, "simplify": 1, "split": 4},
     },
     # the wider approximate alphabet: not run by the registered check (it runs into the known findings A1..A4 all the
     # time); kept to regenerate / re-examine them:  verif.py C13 --profile C13approx_wide --runs N
@@ -1459,7 +1472,7 @@ PROFILES = {
         "initial_handles": (1, 3),
         "length": (5, 30),
         "weights": {"is_true": 18, "is_false": 18, "add": 24, "branch": 10, "g_truth": 6, "eval": 3, "min": 2, "max": 2,
-                    "solution": 1, "batch_eval": 1, "probe": 3, "sat": 3, "new": 2, "simplify": 1, "forget": 2},
+                    "solution": 1, "batch_eval": 1, "probe": 3, "sat": 3, "new": 2, "simplify": 1, "forget": 2, "split": 5},
         "never_swarm_out": ("is_true", "is_false", "branch"),
         "extra_pct": 15,
         "echo_pct": 35,
